@@ -50,6 +50,24 @@ def _only_about(expr, var, self_name):
     return var in names and not any(isinstance(x, (ast.ListComp, ast.GeneratorExp, ast.Lambda)) for x in ast.walk(expr))
 
 
+def _speaks_of_a_copy(ctx, fn, tests, SZ):
+    """The tests do not mention the count SZ itself but a local that copies it (`n2 = SZ`) or a field of a local record built
+    by a call (`chunk.size`): they may well be about the count, in a spelling this rule does not follow."""
+    if any(isinstance(x, ast.Name) and x.id == SZ for t in tests for x in ast.walk(t)):
+        return False
+    for t in tests:
+        for x in ast.walk(t):
+            if isinstance(x, ast.Name) and x.id != fn.self_name:
+                vals = [p_ for w_, p_ in ctx.res.bindings(fn).get(x.id, []) if w_ == "value"]
+                if vals and all(isinstance(v, ast.Name) and v.id == SZ for v in vals):
+                    return True
+            if isinstance(x, ast.Attribute) and isinstance(x.value, ast.Name) and x.value.id != fn.self_name:
+                vals = [p_ for w_, p_ in ctx.res.bindings(fn).get(x.value.id, []) if w_ == "value"]
+                if vals and all(isinstance(v, ast.Call) for v in vals):
+                    return True
+    return False
+
+
 def end_of_iteration(ctx, rid, nx):
     """Every `raise StopIteration` of the v1 hasher is the exhaustion of the last file (empty read and no next file)."""
     # zero read -> next file or stop, inside a loop
@@ -69,9 +87,15 @@ def end_of_iteration(ctx, rid, nx):
         return False
     rds = [n for n in own_nodes(nx.node) if isinstance(n, ast.Assign) and isinstance(n.value, ast.Call) and isinstance(n.targets[0], ast.Name) and reads(n.value)]
     SZ = rds[0].targets[0].id if rds else "size"
+    if not rds:
+        # no statement `n = <file>.readinto(buf)` (or a helper returning that count) in __next__: the variable whose being zero
+        # means "this file is exhausted" is not known, so the tests that lead to the end of the iteration cannot be read
+        ctx.undecided(rid, nx, "the read whose byte count decides the end of a file was not identified in %s (the count may travel in a record); how the iteration ends is not decided" % nx.qualname, nx.node)
+        return SZ
     raises = [n for n in own_nodes(nx.node) if isinstance(n, ast.Raise) and "StopIteration" in norm(n.exc)]
     ok = bool(raises)
     early = None
+    unread = False
     rd_node = C.stmt_node(ctx, nx, rds[0]) if len(rds) == 1 else None
 
     def nonempty(x):
@@ -141,6 +165,8 @@ def end_of_iteration(ctx, rid, nx):
             nfc = rn not in C.reach_under(g, rd_node, another_file, stop=[rd_node])
         else:
             deps = [(norm(C.test_expr(b)), lab) for b, lab in g.control_deps(rn) if C.test_expr(b) is not None]
+            if _speaks_of_a_copy(ctx, nx, [C.test_expr(b) for b, _ in g.control_deps(rn) if C.test_expr(b) is not None], SZ):
+                unread = True        # the tests that lead to this raise speak of a copy of the count (an alias, a field of a local record)
             z = any(t in ("%s == 0" % SZ, "not %s" % SZ) and lab == "true" for t, lab in deps)
             nfc = any("next_file()" in t and ((t.startswith("not ") and lab == "true") or (not t.startswith("not ") and lab == "false")) for t, lab in deps)
         if not (z and nfc):
@@ -150,6 +176,10 @@ def end_of_iteration(ctx, rid, nx):
     if early is not None:
         raises = [early] + [r for r in raises if r is not early]
     whiles = [n for n in own_nodes(nx.node) if isinstance(n, ast.While)]
+    if not ok and unread:
+        ctx.undecided(rid, nx, "the tests that lead to `raise StopIteration` do not mention the byte count %r of the read this rule follows (it may have been copied into another variable); how the iteration ends is not decided" % SZ,
+                      raises[0] if raises else nx.node)
+        return SZ
     ctx.decide(rid, nx, ok and bool(whiles), "iteration ends only when a read returns nothing and there is no next file; otherwise it reads on",
                "the end of iteration is not tied to (empty read and no further file): files can be cut off or skipped", raises[0] if raises else nx.node)
     return SZ
@@ -522,6 +552,9 @@ def v1_hasher(ctx):
             return None
         # the hand-over is reached only after a short read: some controlling test goes the other way for a full read
         ok = any(C.branch_when(b, full_read) not in (None, lab) for b, lab in g.control_deps(cn) if C.test_expr(b) is not None)
+        if not ok and _speaks_of_a_copy(ctx, nx, [C.test_expr(b) for b, _ in g.control_deps(cn) if C.test_expr(b) is not None], SZ):
+            ctx.undecided("C01.6", nx, "the cross-file continuation is entered under %s, tests that do not mention the byte count %r of the read this rule follows" % (conds, SZ), c)
+            continue
         ctx.decide("C01.6", nx, ok, "a read shorter than the piece length is continued across files", "the cross-file continuation is entered under %s" % conds, c)
     # _handle_partial: stitching loop
     wl = [n for n in own_nodes(hp.node) if isinstance(n, ast.While)]
@@ -765,6 +798,13 @@ def _buffer_uses(ctx, rid, fn, g, buf, sz, rn, skip, cap, fresh, depth):
             sites += 1
             ctx.undecided(rid, fn, "buffer %r is aliased through memoryview(); what is read from or written through the view is not tracked" % buf, par)
             continue
+        if isinstance(par, ast.Assign) and par.value is use and len(par.targets) == 1 and isinstance(par.targets[0], ast.Name):
+            # another name for the same buffer (`data = piece`): not a use; what is done through the other name is not followed
+            sites += 1
+            ctx.undecided(rid, fn, "buffer %r gets a second name (`%s`); what is read through that name is not tracked" % (buf, norm(par)[:40]), par)
+            continue
+        if isinstance(par, ast.Call) and isinstance(par.func, ast.Attribute) and par.func.attr == "readinto" and par.args and par.args[0] is use:
+            continue        # another read into the same buffer: judged as a read of its own
         sites += 1
         if isinstance(par, ast.Subscript) and isinstance(par.slice, ast.Slice) and par.slice.lower is None and norm(par.slice.upper) == sz:
             ctx.holds(rid, fn, "buffer %r is consumed as %s[:%s]" % (buf, buf, sz), par)
